@@ -59,10 +59,17 @@ val write_at : file -> nat -> byte list -> file
 
 val pwrite_file : file -> nat -> byte list -> file
 
+type errno =
+| EIO
+| ENOSPC
+| EAGAIN
+| EINTR
+| EBADF
+
 type wresp =
 | WFull
 | WCount of nat
-| WErr
+| WErr of errno
 
 val deliver : wresp -> nat -> nat option
 
